@@ -266,6 +266,14 @@ func c19Scenarios(thorough bool) []*c19Scenario {
 
 func c19ParseScenarios() []*c19Scenario {
 	var out []*c19Scenario
+	// String()/MarshalText at node granularity against every entry point on the same Path (the
+	// rendering hooks are process-global, so these run in the sequential phase too)
+	for _, p := range []string{`(exists($.a)).type()`, `(!($.a[0] == 1)).string()`, `(($.a[0] == 1) is unknown).boolean()`, `($.a[0] + 1).abs() * 2`,
+		`$.a[*] ? (@ like_regex "^[0-9]$" flag "i")`, `$.a[$y to last] ? (@ > 1).double()`, `-$.a[0].abs()`, `$."k y".**{1 to 2} ? (@ starts with $x)`} {
+		for _, k := range []string{"query", "first", "exists", "match", "string"} {
+			out = append(out, &c19Scenario{Paths: []string{p}, Doc: c19Doc, Vars: c19Vars, Ops: []c19Op{{"string", 0}, {k, 0}}})
+		}
+	}
 	texts := []string{`$.a[*] ? (@ > 1)`, `$."kay" ? (@ like_regex "a\\.b" flag "i")`, `strict $.**{1 to 2}.x`, `$.a.decimal(5, 2) + 0x1F * 1_000`, `$"va r" starts with "😀"`}
 	for i := range texts {
 		for j := i; j < len(texts); j++ {
